@@ -380,14 +380,15 @@ def run_check(prop: str, tier: str) -> int:
                     # (a module-level cache, say). Any sequence of scenarios
                     # in one process is a legal history, so that sequence is
                     # executed in a fresh process and becomes the witness.
-                    hist = None
-                    for k2 in keys[:40]:
-                        if results[k2].get("history"):
-                            hist, doc = results[k2]["history"], \
-                                results[k2]["doc"]
+                    tried = 0
+                    for k2 in keys[:200]:
+                        hist = results[k2].get("history")
+                        if not hist:
+                            continue
+                        tried += 1
+                        if tried > 4:
                             break
-                    if hist:
-                        seq_doc = {core.SEQ: list(hist) + [doc]}
+                        seq_doc = {core.SEQ: list(hist) + [results[k2]["doc"]]}
                         seq_res = iso.execute(seq_doc)
                         if seq_res.get("violation") and \
                                 seq_res["violation"]["clause"] == clause:
@@ -398,6 +399,7 @@ def run_check(prop: str, tier: str) -> int:
                                 budget_s=float(getattr(
                                     engine, "SHRINK_S", 60.0)))
                             doc = seq_doc
+                            break
                 if not small_res.get("violation"):
                     # not reproducible in a second process: harness problem
                     harness_errors.append(
@@ -451,8 +453,12 @@ def run_check(prop: str, tier: str) -> int:
                     # (again now) in an isolated child: a violation, flagged
                     # as not bit-reproducible by the replay command.
                     again = iso.execute(small)
-                    if again.get("violation") and \
-                            again["violation"]["clause"] == clause:
+                    if (again.get("violation") and
+                            again["violation"]["clause"] == clause) or (
+                            small_res.get("violation") and
+                            small_res["violation"]["clause"] == clause):
+                        # (small_res: the isolated child that shrank it saw
+                        # it, on top of the pool worker)
                         ok, reproducible = True, "intermittent"
                 if not ok:
                     harness_errors.append(
